@@ -259,11 +259,53 @@ def r15_4(ctx, repo):
         ctx.error(rule, '%s: sampling loop not found' % construct)
     else:
         l = loops[0]
-        env = {'posterior': Arr([Ax(N_C * N_D), Ax(N_P)]),
-               'n_draws': N_D, 'n_chains': N_C, 'rng': Opaque('rng')}
-        lf = ShapeLifter(repo, cls)
+        # walk the method up to the loop with symbolic counts: the matrix of
+        # joint draws, the generator and the counts get their shapes from
+        # their definitions, whatever they are called
+        class LP(ShapeLifter):
+            def _call(self, n, env, fn, depth, owner):
+                f = U(n.func)
+                if f == 'len' and n.args:
+                    t = U(n.args[0])
+                    if t.endswith('.chain'):
+                        return N_C
+                    if t.endswith('.draw'):
+                        return N_D
+                if f.endswith('_predictive_model.n_parameters'):
+                    return N_P
+                if f.endswith('default_rng'):
+                    return Opaque('rng')
+                if isinstance(n.func, ast.Attribute) and n.func.attr == \
+                        'choice' and n.args:
+                    v = self.ev(n.args[0], env, fn, depth, owner)
+                    if isinstance(v, Arr) and v.ndim == 2:
+                        self.choices.append(v)
+                        return Arr(v.axes[1:])
+                return super()._call(n, env, fn, depth, owner)
+        lf = LP(repo, cls, flags={'n_samples is None': False})
+        lf.choices = []
+        env = {}
+        pre = []
+        for st in fn.body:
+            if st is l:
+                break
+            pre.append(st)
+        try:
+            lf._block(pre, env, fn, 0, cls)
+        except Exception:
+            pass
+        lf.events = []
+        # the draw handed to the predictive model in the loop
+        calls = [c for c in ast.walk(l) if isinstance(c, ast.Call)
+                 and U(c.func).endswith('_predictive_model.sample')]
+        arg = None
+        if calls:
+            kw = {k.arg: k.value for k in calls[0].keywords}
+            arg = kw.get('parameters', calls[0].args[0]
+                         if calls[0].args else None)
+        pname = arg.id if isinstance(arg, ast.Name) else None
         picks = [s for s in l.body if isinstance(s, ast.Assign)
-                 and U(s.targets[0]) == 'parameters']
+                 and U(s.targets[0]) == pname]
         for s in picks:
             try:
                 v = lf.ev(s.value, env, fn, 0, cls)
@@ -271,12 +313,20 @@ def r15_4(ctx, repo):
                 v = None
             where = repo.loc(s, cls, fn.name)
             txt = U(s.value)
+            rows_ok = lf.choices and eq(lf.choices[-1].axes[0].size,
+                                        N_C * N_D)
             if lf.events:
                 _emit_events(ctx, rule, repo, cls, fn, lf, construct)
-            elif txt.replace(' ', '') == 'rng.choice(posterior)':
+            elif lf.choices and rows_ok:
                 ctx.ok(rule, where, construct,
                        'one joint row of the (chains x draws) posterior '
                        'matrix is drawn uniformly over all rows')
+            elif lf.choices:
+                ctx.violation(
+                    rule, where, construct, 'row pool',
+                    'the joint draw is chosen among %s rows; the posterior '
+                    'matrix has n_chains * n_draws rows' % (
+                        lf.choices[-1].axes[0].size), engine=ENG)
             elif isinstance(v, Arr):
                 ctx.ok(rule, where, construct,
                        'one joint row is selected by a random index over '
